@@ -18,7 +18,7 @@ def rng_for(seed, prop, index):
 # Generator decisions added after tape-style replay files were stored are guarded by `tape.feature(name)`: a replay file
 # lists the features that existed when it was written, a stored tape is replayed with exactly those (the guarded
 # decisions are skipped without consuming a tape position), so old tapes keep denoting the same scenario.
-FEATURES = ["bam_clone_record", "bam_repeat_selection", "bam_many_cigar_ops", "c11_axis_form", "c17_large_batch", "bam_two_step_selection"]
+FEATURES = ["bam_clone_record", "bam_repeat_selection", "bam_many_cigar_ops", "c11_axis_form", "c17_large_batch", "bam_two_step_selection", "bam_two_step_general"]
 
 
 class Tape:
